@@ -1,12 +1,15 @@
 #![allow(dead_code)]
 //! verif-harness: runs the real aiken/uplc code next to the Lean models.
 //!   verif-harness <sub-command> [--seed N] [--tier quick|thorough] [--out file] [--replay file]
+mod aik;
 mod c03;
 mod c05;
 mod c08;
 mod c11;
+mod c12;
 mod c15;
 mod c16;
+mod c18;
 mod c20;
 mod cek;
 mod driver;
@@ -14,6 +17,8 @@ mod flatgen;
 mod gen;
 mod prng;
 mod report;
+mod sx;
+mod tygen;
 mod wire;
 
 pub struct Ctx {
@@ -69,6 +74,9 @@ fn main() {
         "c08-flat" => c08::run(&ctx),
         "c20-flat" => c20::run(&ctx),
         "c11-debruijn" => c11::run(&ctx),
+        "c12-probe" => c12::probe(&ctx),
+        "c12-corr" => c12::corr(&ctx),
+        "c18-apply" => c18::apply(&ctx),
         other => {
             eprintln!("unknown sub-command {other}");
             std::process::exit(2);
